@@ -73,6 +73,11 @@ fn main() {
         std::thread::Builder::new().stack_size(512 << 20).spawn(move || fwdprobe(n)).unwrap().join().unwrap();
         return;
     }
+    if !shash::seam_works() {
+        // without the seam the hash-key dimension of C10/C11 would silently explore nothing
+        eprintln!("harness error: the getrandom seam is not in effect (std no longer draws RandomState keys through libc getrandom?)");
+        std::process::exit(2);
+    }
     let checks: Vec<&'static dyn Check> = vec![&c03::C03, &c04::C04, &c07::C07, &c20::C20, &c19::C19, &c01::C01, &c10::C10, &c09::C09, &c11::C11];
     let code = simcore::driver::main_entry(&checks);
     std::process::exit(code);
